@@ -54,6 +54,12 @@ pub fn run() -> Report {
             cases.push(Case { dirty: false, base: 0, n: long_n, start: s, end: e, cb });
         }
     }
+    // more blocks than a 16-bit counter holds: 70 000 blocks, whole chain and a range crossing 65 535 / 65 536
+    for (s, e) in [(None, None), (Some(65_530u64), Some(65_540u64))] {
+        for cb in CALLBACKS {
+            cases.push(Case { dirty: false, base: 0, n: 70_000, start: s, end: e, cb });
+        }
+    }
     // sparse high-height indexes: records only at H-1..H+3
     let highs: Vec<u64> = if is_thorough() {
         vec![127, 128, 16_511, 16_512, 209_999, 2_113_663, 2_113_664, 1_000_000, 1 << 32]
@@ -72,7 +78,7 @@ pub fn run() -> Report {
         }
     }
     rep.rule = "every accepted (tip T, --start, --end) combination x 5 callbacks on dense chains (file-producing callbacks also with the leftovers of an aborted whole-chain dump in the dump folder), a long chain (300 / 1000 blocks) with ranges around height 256, plus range shapes on sparse indexes at VarInt-width / halving / >32-bit heights; non-trivial = distinct (T, options, callback) whose run delivered at least one block".into();
-    rep.bound = json!({"max_tip": max_t, "callbacks": 5, "cases": cases.len(), "long_chain_blocks": long_n});
+    rep.bound = json!({"max_tip": max_t, "callbacks": 5, "cases": cases.len(), "long_chain_blocks": long_n, "very_long_chain_blocks": 70000});
     let root = refmodel::world::scratch_root();
     let btc = coin("bitcoin");
     let parts = par_fold(
@@ -80,13 +86,16 @@ pub fn run() -> Report {
         || Report::new("C02", "e1"),
         |w, _i, c, acc| {
             let wk = Worker::new(&root, w);
-            let chain = dependent_chain(btc, c.base, c.n);
+            let chain = if c.n >= 10_000 { crate::c03::uniform_chain(c.n) } else { dependent_chain(btc, c.base, c.n) };
             let all = chain.mblocks();
             let world = World::simple(btc, &chain.blocks, c.base);
             let tip = c.base + c.n as u64 - 1;
             let s = c.start.unwrap_or(0);
             let e = c.end.map(|e| e.min(tip)).unwrap_or(tip);
-            let spec = RunSpec::new("bitcoin", c.cb).range(c.start, c.end);
+            let mut spec = RunSpec::new("bitcoin", c.cb).range(c.start, c.end);
+            if c.n >= 10_000 {
+                spec.env.push(("VERIF_RUN_TIMEOUT".into(), "600".into()));
+            }
             if let Err(m) = wk.materialise(&world) {
                 acc.machinery(m);
                 return;
